@@ -79,3 +79,24 @@ def optional_name_key_dropped():
 def empty_leaf_statistics_normalised():
     h = _accepts({"type": "Deviate", "data": {"entries": 0.0, "mean": "nan", "variance": 3.5}, "version": "1.1"})
     return h is not None and h.toJson()["data"]["variance"] != 3.5
+
+
+def sum_numpy_drops_nan():
+    """C03: Sum._numpy ignores rows whose quantity is NaN; the row-wise fill makes the sum NaN"""
+    import numpy as np
+
+    a = hg.Sum(lambda d: d)
+    a.fill.numpy(np.array([1.0, float("nan"), 2.0]))
+    b = hg.Sum(lambda d: d)
+    for x in (1.0, float("nan"), 2.0):
+        b.fill(x)
+    return (a.sum == a.sum) and (b.sum != b.sum)
+
+
+def scalar_weight_count_before_length_known():
+    """C03: with a scalar weight, a Count visited before any quantity node receives w instead of w * n"""
+    import numpy as np
+
+    h = hg.Branch(hg.Count(), hg.Minimize(lambda d: d))
+    h.fill.numpy(np.array([1.0, 2.0, 3.0]))
+    return h.values[0].entries != 3.0
